@@ -259,6 +259,20 @@ def corpus():
             out.append(line(["MK " + _reg(hd + body, None, False), "FROM 0", "DROP 0"]))
         # the honest definite-length form of the same bundle is a valid bundle
         out.append(line(["MK " + _reg(bytes([0x80 + len(vb["cs"]) + 1]) + body, vb, True), "FROM 0", "VALID 1", "TOCBOR 1", "BFREE 2", "BNDFREE 1", "DROP 0"]))
+    # CRC fields of the wrong length (one byte more / one byte less than the CRC type says) in the primary block and in a canonical block:
+    # NULL, never an abort (a decoder that copies the field into a fixed-size array must check the length first)
+    for ck in (1, 2):
+        vb = valid_bundle(rng, nblocks=1, crc_kind=ck)
+        raw, _ = genb.ref_bundle(vb)
+        n = 2 if ck == 1 else 4
+        for (st, en) in genb.block_spans(vb):
+            if raw[en - n - 1] != 0x40 + n:
+                continue
+            longer = raw[:en - n - 1] + bytes([0x40 + n + 1]) + raw[en - n:en] + b"\x00" + raw[en:]
+            shorter = raw[:en - n - 1] + bytes([0x40 + n - 1]) + raw[en - n:en - 1] + raw[en:]
+            empty = raw[:en - n - 1] + b"\x40" + raw[en:]
+            for t in (longer, shorter, empty):
+                out.append(line(["MK " + _reg(t, None, False), "FROM 0", "DROP 0"]))
     # invalid bundles -> NULL
     for _ in range(6):
         out.append(line(["MK " + buf_invalid(rng), "FROM 0", "DROP 0"]))
